@@ -28,6 +28,7 @@ type txRec struct {
 	Writer   bool // committed with effects and judged at its commit position
 	Reader   bool // to be judged against a fixed snapshot inside its window
 	Skip     bool // an error no model run expects was returned: statement-level oracle not applied
+	NoEffect bool // committed, but the committed state did not change: must be explained by a snapshot on which it changes nothing
 	Reported int  // UpdatedRows reported by gRPC Commit (-1 = none)
 }
 
@@ -193,6 +194,11 @@ func (k *cas) blame(o, want *state) *txRec {
 // expect compares what another session sees with the model state; on a difference it raises the violation and
 // returns the observed state (the model follows what is really there, so that one defect is reported once).
 func (k *cas) expect(want *state, t *txRec, sig, what string) *state {
+	return k.expectAlt(want, nil, t, sig, what)
+}
+
+// expectAlt: alt is what the known open defect (ROLLBACK TO SAVEPOINT keeps the writes) would leave.
+func (k *cas) expectAlt(want, alt *state, t *txRec, sig, what string) *state {
 	o, via, err := k.observe()
 	if err != nil {
 		k.c.Inconclusive(fmt.Sprintf("[%s] %v", k.tag, err))
@@ -201,6 +207,10 @@ func (k *cas) expect(want *state, t *txRec, sig, what string) *state {
 	k.c.Eval(1)
 	if o.text() == want.text() {
 		return nil
+	}
+	if alt != nil && o.text() == alt.text() {
+		k.c.Violation("sqltx/rollback-to-savepoint-keeps-writes", fmt.Sprintf("[%s] via %s: %s committed the writes made after a savepoint it had rolled back to: %s", k.tag, feName[t.P.FE], t.name(), t.P.text()), nil)
+		return o
 	}
 	detail := fmt.Sprintf("[%s] %s: a session reading through %s sees\n  %s\nbut the committed transactions give\n  %s", k.tag, what, via, o.text(), want.text())
 	if t != nil {
@@ -297,6 +307,11 @@ func (k *cas) committed(t *txRec, base *state) *state {
 	k.c.Eval(1)
 	switch {
 	case o.text() == v0.st.text():
+	case o.text() == base.text() && t.Aborted == "":
+		// nothing changed: on its own snapshot the transaction may have had no effect at all (then nothing was
+		// validated at commit); it is judged like a reader, with the extra demand that its statements change nothing
+		t.Reader, t.NoEffect = true, true
+		return nil
 	case t.usesRollTo():
 		v1, r1, ok1, w1 := replay(base, t.P.RO, true, t.Obs)
 		if o.text() != v1.st.text() {
@@ -414,7 +429,7 @@ func (k *cas) judgeReader(t *txRec) {
 			base := &state{A: k.states[ia].A, B: k.states[ib].B}
 			for _, keep := range keeps {
 				v, r, ok, _ := replay(base, t.P.RO, keep, t.Obs)
-				if !ok {
+				if !ok || t.NoEffect && v.st.text() != base.text() {
 					continue
 				}
 				if keep {
@@ -426,9 +441,7 @@ func (k *cas) judgeReader(t *txRec) {
 				if ia == ib {
 					single = true
 				}
-				if t.P.FE == fePG {
-					k.reported(t, v, r)
-				}
+				k.reported(t, v, r)
 				if !single {
 					k.c.Count("reader_explained_only_per_table", 1)
 				}
@@ -999,7 +1012,12 @@ func (s *sess) pgScript(p *prog, t *txRec) {
 		}
 		t.Skip = true
 		k.distinct(t)
-		next := k.expect(want, t, fe+"/script-"+strings.ToLower(endSQL)+"-state-mismatch", "after the one-message block of "+t.name()+" ("+t.Outcome+")")
+		var alt *state
+		if want == v.st && t.usesRollTo() {
+			vk, _, _, _ := replay(base, false, true, t.Obs)
+			alt = vk.st
+		}
+		next := k.expectAlt(want, alt, t, fe+"/script-"+strings.ToLower(endSQL)+"-state-mismatch", "after the one-message block of "+t.name()+" ("+t.Outcome+")")
 		if next == nil && want != base && want.text() != base.text() {
 			next = want
 		}
